@@ -70,6 +70,7 @@ where
 {
 	match input.into() {
 		Input::Slice(b) => {
+			vhit!(MSGPACK_SLICE_PATH);
 			let mut rest = &*b;
 			while !rest.is_empty() {
 				let next;
@@ -80,6 +81,7 @@ where
 			}
 		}
 		Input::Reader(r) => {
+			vhit!(MSGPACK_READER_PATH);
 			let mut r = BufReader::new(r);
 			while !r.fill_buf()?.is_empty() {
 				let mut de = rmp_serde::Deserializer::new(&mut r);
@@ -272,6 +274,18 @@ impl Display for ReadSizeError {
 			ReadSizeError::DepthLimitExceeded => f.write_str("depth limit exceeded"), // same message as rmp_serde
 		}
 	}
+}
+
+/// Verification hook: see [`crate::verif::msgpack_value_size`].
+#[cfg(feature = "verif")]
+pub(crate) fn verif_next_value_size(input: &[u8], depth_limit: usize) -> Result<usize, String> {
+	next_value_size(input, depth_limit).map_err(|err| err.to_string())
+}
+
+/// Verification hook: see [`crate::verif::msgpack_depth_limit`].
+#[cfg(feature = "verif")]
+pub(crate) fn verif_depth_limit() -> usize {
+	DEPTH_LIMIT
 }
 
 #[cfg(test)]
